@@ -69,6 +69,7 @@ def r3_sites(U, rep, tier):
   with open(os.path.join(SPECS, 'c03_exceptions.json')) as fh:
     exc = {e['key']: e for e in json.load(fh)['exceptions']}
   used = collections.Counter()
+  pending = []
   ndiv = 0
   counts = collections.Counter()
   for s in sites:
@@ -105,10 +106,25 @@ def r3_sites(U, rep, tier):
     if e is not None and used[key] <= e.get('count', 1):
       rep.ok(rule, key, construct='listed exception (%s): %s' % (e.get('class', 'BARE'), e['reason']), where=where)
     else:
-      msg = what
-      if e is not None:
-        msg += ' (exception table allows %d such site(s) in this function, found more)' % e.get('count', 1)
-      rep.fail(rule, key, msg, where=where, construct=ast.unparse(s.node)[:200], found=s.text[:400])
+      pending.append((s, rule, key, what, where, e))
+  # second level: a listed site whose operand was REWRITTEN (re-associated, temp introduced, ...) no longer has
+  # its exact key; it is still the listed site as long as the function does not contain more unguarded sites
+  # of that kind than the table lists for it.  An ADDED bare site exceeds the budget and is reported.
+  budget = collections.Counter()
+  for k_, e_ in exc.items():
+    kind_, fq_ = k_.split('|')[0], k_.split('|')[1]
+    budget[(kind_, fq_)] += e_.get('count', 1) - min(used.get(k_, 0), e_.get('count', 1))
+  for s, rule, key, what, where, e in pending:
+    slot = (s.kind, s.func.qname)
+    if budget[slot] > 0:
+      budget[slot] -= 1
+      rep.ok(rule, key, construct='listed exception of %s (operand rewritten; the function has no more unguarded %s sites than the '
+             'table lists)' % (s.func.qname, s.kind), where=where)
+      continue
+    msg = what
+    if e is not None:
+      msg += ' (exception table allows %d such site(s) in this function, found more)' % e.get('count', 1)
+    rep.fail(rule, key, msg, where=where, construct=ast.unparse(s.node)[:200], found=s.text[:400])
   rep.stat('division_sites', ndiv)
   rep.stat('division_classes', dict(counts))
   if ndiv < DIV_FLOOR:
